@@ -187,6 +187,19 @@ static std::vector<Scenario> make_scenarios(bool thorough) {
                  {Op{"upsample/cumsum(8)", [] { auto x = rletter(8, 139); return mix(mix(H(upsample(x, 2, 0)), H(cumsum(x))), mix(H(downsample(x, 3)), H(repelem(x, 3)))); }},
                   Op{"power/exp(14)", [] { auto z = cletter(14, 140); return mix(mix(H(power(z, -2)), H(exp(z))), mix(H(angle(z)), H(abs(z)))); }},
                   Op{"czt/istft", [] { auto x = rletter(56, 141); return mix(H(czt(cletter(7, 142), 9, expj(-2 * pi / 11), cmplx_t(1, 0))), H(istft(stft(x, 16), 16))); }}}}, 2);
+        // calls that are REJECTED (they throw single-threaded, so they must throw the same thing concurrently): the error path is
+        // shared code too (message buffers, error counters); the exception's text is the operation's outcome
+        {
+            auto bad = [](int v) {
+                return std::vector<Op>{
+                    Op{"plan on wrong length", [v] { FftPlan p(v ? 12 : 16); return H(p.solve(cletter(v ? 13 : 15, 171))); }},
+                    Op{"irfft odd / slice out of range", [v] { uint64_t h = 0; try { h = H(irfft(cletter(7, 172), v ? 13 : 11)); } catch (const std::exception& e) { for (const char* c = e.what(); *c; ++c) h = mix(h, (uint64_t)(unsigned char)*c); }
+                                                                auto x = rletter(8, 173); return mix(h, H(arr_real(x.slice(v ? 9 : 10, 3)))); }},
+                    Op{"array length mismatch", [v] { auto a = rletter(v ? 3 : 4, 174); auto b = rletter(v ? 2 : 5, 175); return H(a + b); }},
+                    Op{"valid call afterwards", [v] { return H(fft(cletter(v ? 12 : 16, 176))); }}};
+            };
+            free_fn("H2.rejected-calls.t2", {bad(0), bad(1)}, 2);
+        }
         free_fn("H2.kaiser-fir1.t2",
                 {{Op{"kaiser", [] { return H(window::kaiser(16, 5.0)); }}, Op{"fir1", [] { return H(fir1(12, 0.3)); }}},
                  {Op{"kaiser", [] { return H(window::kaiser(9, 2.0)); }},
